@@ -489,21 +489,30 @@ static Sim::RequestFn cRequester(llb_task_interface_t ti, int tid) {
     else llb_buildengine_task_needs_input(ti, &k, id);  // no single-use in the C API
   };
 }
+// The engine context handed to every callback must be the one of the engine that makes the call: each C engine
+// gets a context cell of its own (cells are never freed, so two engines never share an address).
+struct CEngineCtx { Sim* sim; };
+static CEngineCtx* gCEngineCtx = nullptr;
+static void checkEngineCtx(void* ec, const char* where) {
+  if (ec != (void*)gCEngineCtx) OUT("bad-engine-context " << where);
+}
 static void c_task_destroy(void* ctx) {
   auto* t = (CTaskCtx*)ctx;
   OUT("destroy " << t->logic.tid);
   delete t;
 }
-static void c_task_start(void* ctx, void*, llb_task_interface_t ti) {
+static void c_task_start(void* ctx, void* ec, llb_task_interface_t ti) {
   auto* t = (CTaskCtx*)ctx;
+  checkEngineCtx(ec, "start");
   t->sim->callbackTick("start", false);
   OUT("start " << t->logic.tid);
   t->sim->logicStart(t->logic, cRequester(ti, t->logic.tid));
   t->sim->callbackTick("start", true);
 }
-static void c_task_provide(void* ctx, void*, llb_task_interface_t ti, uintptr_t id,
+static void c_task_provide(void* ctx, void* ec, llb_task_interface_t ti, uintptr_t id,
                            const llb_data_t* value) {
   auto* t = (CTaskCtx*)ctx;
+  checkEngineCtx(ec, "provide_value");
   t->sim->callbackTick("provide", false);
   std::string v((const char*)value->data, value->length);
   size_t idx = TaskLogic::indexFor(id);
@@ -514,8 +523,9 @@ static void c_task_provide(void* ctx, void*, llb_task_interface_t ti, uintptr_t 
   t->sim->logicProvide(t->logic, idx, v, cRequester(ti, t->logic.tid));
   t->sim->callbackTick("provide", true);
 }
-static void c_task_avail(void* ctx, void*, llb_task_interface_t ti) {
+static void c_task_avail(void* ctx, void* ec, llb_task_interface_t ti) {
   auto* t = (CTaskCtx*)ctx;
+  checkEngineCtx(ec, "inputs_available");
   t->sim->callbackTick("avail", false);
   OUT("avail " << t->logic.tid);
   std::string value;
@@ -535,8 +545,9 @@ static void c_task_avail(void* ctx, void*, llb_task_interface_t ti) {
   });
   t->sim->callbackTick("avail", true);
 }
-static llb_task_t* c_rule_create_task(void* ctx, void*) {
+static llb_task_t* c_rule_create_task(void* ctx, void* ec) {
   auto* r = (CRuleCtx*)ctx;
+  checkEngineCtx(ec, "create_task");
   int tid = r->sim->nextTid++;
   OUT("create " << hex(r->spec.key) << " " << tid);
   llb_task_delegate_t d;
@@ -548,19 +559,22 @@ static llb_task_t* c_rule_create_task(void* ctx, void*) {
   d.inputs_available = c_task_avail;
   return llb_task_create(d);
 }
-static bool c_rule_valid(void* ctx, void*, const llb_rule_t*, const llb_data_t* result) {
+static bool c_rule_valid(void* ctx, void* ec, const llb_rule_t*, const llb_data_t* result) {
   auto* r = (CRuleCtx*)ctx;
+  checkEngineCtx(ec, "is_result_valid");
   std::string v((const char*)result->data, result->length);
   bool ok = r->sim->logicValid(r->spec, v);
   OUT("valid " << hex(r->spec.key) << " " << ok << " " << hex(v));
   return ok;
 }
-static void c_rule_status(void* ctx, void*, llb_rule_status_kind_t k) {
+static void c_rule_status(void* ctx, void* ec, llb_rule_status_kind_t k) {
   auto* r = (CRuleCtx*)ctx;
+  checkEngineCtx(ec, "update_status");
   OUT("status " << hex(r->spec.key) << " " << (int)k);
 }
 static void c_lookup_rule(void* ctx, const llb_data_t* key, llb_rule_t* rule_out) {
-  Sim* sim = (Sim*)ctx;
+  checkEngineCtx(ctx, "lookup_rule");
+  Sim* sim = ((CEngineCtx*)ctx)->sim;
   std::string k((const char*)key->data, key->length);
   RuleSpec s = specFor(sim->snapshot, k);
   OUT("lookup " << hex(k) << " " << ruleSignature(s));
@@ -596,7 +610,8 @@ void Sim::newEngine() {
   } else {
     llb_buildengine_delegate_t d;
     memset(&d, 0, sizeof(d));
-    d.context = this;
+    gCEngineCtx = new CEngineCtx{this};
+    d.context = gCEngineCtx;
     d.lookup_rule = c_lookup_rule;
     d.error = c_error;
     d.cycle_detected = c_cycle;
@@ -896,6 +911,22 @@ void Sim::dumpDB() {
                           << " deps=" << ds.str());
       }
     }
+  }
+  // (3) through a BuildDB of ANOTHER client version that must not recreate: every operation on that handle has
+  // to be rejected, the first one and the ones after it (the connection is opened lazily, per operation)
+  {
+    std::string err;
+    auto bdb = createSQLiteBuildDB(dbPath, clientVersion + 1, /*recreate=*/false, &err);
+    DumpDelegate dd;
+    bdb->attachDelegate(&dd);
+    bool ok1 = false, ok2 = false;
+    std::string e1, e2, e3;
+    bdb->getCurrentEpoch(&ok1, &e1);
+    Epoch second = bdb->getCurrentEpoch(&ok2, &e2);
+    std::vector<KeyType> keys;
+    bool ok3 = bdb->getKeys(keys, &e3);
+    OUT("db api-foreign first=" << ok1 << " second=" << ok2 << " epoch=" << second << " getkeys=" << (ok3 && e3.empty())
+                                << " nkeys=" << keys.size());
   }
   OUT("db-end");
 }
